@@ -132,5 +132,20 @@ func registry() map[string]PropSpec {
 		},
 		Assumptions: []string{"regexp.ReplaceAllStringFunc/FindStringSubmatch executed by the engine's backtracking matcher (leftmost-first, captures) over the syntax tree regexp/syntax parses from the pattern constant found in the package initialiser"},
 	})
+	add(PropSpec{
+		ID: "C17",
+		Harnesses: []HSpec{
+			{Pkg: ".", Name: "c17_fullsource", Quick: map[string]int{"len": 8}, Thorough: map[string]int{"len": 12}, Unwind: [2]int{96, 128}, Budget: [2]int{120, 1500},
+				Models: []string{"net/url.Parse=vpModelURLParse", "path.Join=vpModelPathJoin"}, Validate: []string{"urlparse", "pathjoin"},
+				What:   "FullSource on every source of up to len bytes over [ab0._/-#:@\\] inside the documented forms equals the documented rules; a second application is the identity; MarshalYAML keys by the canonical source"},
+		},
+		Outside: []string{
+			"sources longer than the bound; upper-case scheme folding, percent-encoding, query strings, IPv6/port syntax (all hit `scheme => unchanged` before mattering)",
+			"refs/names with empty or dot-only components, and characters outside [A-Za-z0-9._-] in names (outside the documented forms, excluded by assumption)",
+		},
+		Assumptions: []string{
+			"net/url.Parse replaced by vpModelURLParse and path.Join by vpModelPathJoin (validated natively: every string <= 6 symbols over a 13-symbol alphabet, 300k random strings <= 14 bytes, and path.Join on 488k element combinations)",
+		},
+	})
 	return r
 }
